@@ -1,12 +1,48 @@
 CFG = dict(
-    lean_modules=["SaramaVerif.Model.ProduceSet", "SaramaVerif.Props.C16", "SaramaVerif.Bridge.C16"],
+    lean_modules=["SaramaVerif.Model.ProduceSet", "SaramaVerif.Lemmas.C16Sets", "SaramaVerif.Lemmas.C16Wire",
+                  "SaramaVerif.Props.C16", "SaramaVerif.Bridge.C16"],
     lean_support=["SaramaVerif.GoSem", "SaramaVerif.Gen.C16"],
     model="C16",
-    required_theorems=[],
-    n={"quick": 1500, "thorough": 40000, "search": 3000},
+    required_theorems=[
+        "Props.C16.grown_inv", "Props.C16.count_limit", "Props.C16.batch_bytes_limit", "Props.C16.batch_payload_below_max",
+        "Props.C16.single_batch_bound", "Props.C16.request_estimate_limit", "Props.C16.oversize_rejected",
+        "Props.C16.dispatch_table", "Props.C16.request_size_margin", "Props.C16.request_size_exact_legacy",
+        "Props.C16.request_size_limit", "Props.C16.request_within_margin_accepted",
+        "Props.C16.ready_to_flush_table", "Props.C16.ready_when_unconfigured", "Props.C16.never_ready_when_empty",
+        "Props.C16.bp_step_inv", "Props.C16.bp_run_inv", "Props.C16.flush_enabled_iff", "Props.C16.flush_timer_armed",
+        "Props.C16.timer_fire_enables", "Props.C16.flush_immediate_when_unconfigured", "Props.C16.trigger_enables",
+        "Props.C16.handed_over_within_limits",
+        "Bridge.C16.producerMessageOverhead_eq", "Bridge.C16.recordBatchOverhead_eq", "Bridge.C16.wouldOverflow_eq",
+        "Bridge.C16.readyToFlush_eq", "Bridge.C16.empty_eq", "Bridge.C16.byteSize_eq", "Bridge.C16.dispatch_eq",
+        "Bridge.C16.addSize_eq_gen", "Bridge.C16.addAccumulate_eq", "Bridge.C16.dropAccumulate_eq",
+        "Bridge.C16.runOutputTail_eq", "Bridge.C16.rollOver_eq"],
+    n={"quick": 2500, "thorough": 40000, "search": 3000},
     thorough_seeds=3,
     level="proof",
-    assumptions=[],
+    assumptions=[
+        "scope of this check: produceSet, ProducerMessage.byteSize, the dispatcher's size check, buildRequest+encode sizes and the run loop of ONE brokerProducer driven by the harness "
+        "(as partition producers, bridge and broker); arrival time of requests at a broker through the whole pipeline belongs to the pipeline harness",
+        "Encoder.Length() == len(Encode()) for the user's encoders (byteSize uses Length, add uses the encoded bytes)",
+        "the run-loop model covers wouldOverflow/waitForSpace hand-over, timer, bridge take and partition drops; retry state (currentRetries), shutdown and the epoch roll-over of the "
+        "idempotent producer are not part of the fragment",
+        "request_size_margin assumes int32-sized fields (each message's size estimate < 2^31) and no compression; compressed requests are only checked against MaxRequestSize on the real bytes",
+        "wall-clock latency of the flush timer is observed (the timer fires within 8 s for a 2 ms frequency), not proved"],
     trusted_base=[],
 )
-CFG["manifest"] = dict(text="", note="", technique="")
+CFG["manifest"] = dict(
+    text="Proof (Lean, for every sequence of adds, partition drops and run-loop events): a set grown under the broker producer's discipline (first message after a roll-over unchecked, "
+         "every further one only when wouldOverflow is false) never holds more than Flush.MaxMessages messages; a partition batch with >= 2 messages has key+value bytes (+26 per message) "
+         "below MaxMessageBytes; with >= 2 messages the size estimate stays below MaxRequestSize-10KiB (+49); the dispatcher forwards a message only if byteSize <= MaxMessageBytes; "
+         "the encoded size of an uncompressed request is at most estimate + slack (exact for message sets: format 1 is undercounted by 8 bytes per message) and a request is written only "
+         "if encode accepts it (<= MaxRequestSize); decision table of readyToFlush; run-loop invariant: output enabled <=> timer fired or readyToFlush, non-empty buffer with a frequency "
+         "has its timer armed, no trigger configured => enabled whenever non-empty, every set handed to the bridge satisfies the three limits. "
+         "Bridge: wouldOverflow, readyToFlush, empty, byteSize (header loop through its extracted body), the dispatcher checks, the size assignments and accumulators of add/dropPartition, "
+         "the loop tail and rollOver of brokerProducer.run are re-translated from /repo on every run and proved equal to the model. "
+         "Correspondence + oracle: op sequences through the real produceSet with sizes aimed at every limit (+-2) across 9 releases x codecs x Flush/limit combinations, exhaustive boundary grid, "
+         "real dispatcher at byteSize = limit-1/limit/limit+1, real buildRequest+encode sizes vs. the model's wire size, and the real brokerProducer.run loop with the harness as producers, "
+         "bridge and broker (hand-over, timer, take, drop).",
+    note="Trusted: Lean kernel; translator tools/extract + GoSem.lean; harness/line protocol. maximumRecordOverhead, binary.MaxVarintLen32 and MaxRequestSize are not extractable "
+         "(stdlib selector constants / a variable): tied by the `consts` line of the harness. The control flow of add between the extracted fragments is tied by correspondence. "
+         "Known finding: buildRequest panics for a legacy compressed set whose inner message set exceeds MaxRequestSize (26 vs 34 bytes per format-1 message).",
+    technique="Lean 4 proof (invariants over inductively defined reachable sets and run-loop event sequences) + regenerated bridge obligations + differential correspondence incl. the real run loop",
+)
